@@ -62,7 +62,7 @@ def fx_lean_ty(t):
     """`io_lean_ty` of rs2lean_cf extended by the types of this dialect (installed only while a unit of this module is
     being translated, see `translate_unit`)"""
     k = t[0]
-    if k == "res" and len(t) == 3:
+    if k == "res" and len(t) >= 3:
         return "Except %s %s" % (t[2], io_paren(fx_lean_ty(t[1]))) if t[1] is not None else "Except %s Unit" % t[2]
     if k == "enum":
         return t[1]
@@ -96,7 +96,7 @@ def fx_effectful(n):
 
 def err_of(t):
     """error type (Lean name) of a result type"""
-    return t[2] if len(t) == 3 else "IoErr"
+    return t[2] if len(t) >= 3 else "IoErr"
 
 
 def mk_res(inner, err):
@@ -169,7 +169,27 @@ class FxParser(IoParser):
         if x.kind == "bstr":
             self.next()
             return N("bstr", x.pos, bytes=unescape(x.text[2:-1], x.pos))
+        if x.kind == "op" and x.text == "[":
+            # array literal `[a, b]` (the base parser only knows `[v; n]`)
+            save = self.i
+            self.next()
+            items = []
+            while not self.at("]"):
+                items.append(self.expr())
+                if self.at(","):
+                    self.next()
+                elif not self.at("]"):
+                    self.i = save
+                    return IoParser.primary(self, no_struct)
+            self.next()
+            return N("array", x.pos, items=items)
         return IoParser.primary(self, no_struct)
+
+    def match_pat(self):
+        x = self.peek()
+        if x.kind == "char":
+            return self.primary(False)
+        return IoParser.match_pat(self)
 
     def stmt0(self):
         x = self.peek()
@@ -269,6 +289,15 @@ class FxFn(IoFn):
     # ---------------------------------------------------------------- types
     def _pty(self, toks, i):
         t = toks[i]
+        if t.text == "[":
+            el, j = self._pty(toks, i + 1)
+            if toks[j].text == ";":
+                j += 1
+                while toks[j].text != "]":
+                    j += 1
+            if toks[j].text != "]":
+                raise Unsupported("array type in the translation spec")
+            return ("list", el), j + 1
         if t.kind == "id":
             path = [t.text]
             j = i + 1
@@ -298,7 +327,9 @@ class FxFn(IoFn):
                         return ("res", args[0], "String"), j
                     if e[0] == "enum":
                         return ("res", args[0], e[1]), j
-                    raise Unsupported("`Result<_, E>` with this error type in the translation spec")
+                    if e[0] == "ioerr":
+                        return ("res", args[0]), j
+                    return ("res", args[0], "(" + fx_lean_ty(e) + ")", e), j
                 if len(args) != 1:
                     raise Unsupported("`Result` with %d type arguments" % len(args))
                 if len(path) >= 2 and path[-2] == "io":
@@ -530,6 +561,14 @@ class FxFn(IoFn):
             return k(str(e.bytes[0]), ("int", "char"), env)
         if kd == "bstr":
             return k("[" + ", ".join(str(b) for b in e.bytes) + "]", BYTES, env)
+        if kd == "array":
+            el = want[1] if want is not None and want[0] == "list" else None
+            return self.ev_list(e.items, env, lambda vs, e2: k("[" + ", ".join(v for v, _ in vs) + "]",
+                                                                  ("list", el if el is not None else (vs[0][1] if vs else None)), e2),
+                                [el] * len(e.items))
+        if kd == "un" and e.op == "-" and strip(e.e).kind == "lit" and want is not None and want[0] == "int" \
+                and want[1] and want[1][0] == "i":
+            return k("(-%d : Int)" % strip(e.e).v, want, env)
         if kd == "str" and want is not None and want[0] == "list":
             bs = unescape(e.text[1:-1], e.pos)
             return k("([%s] : List Nat)" % ", ".join(str(b) for b in bs), STR, env)
@@ -614,6 +653,25 @@ class FxFn(IoFn):
             return self.ev(e.args[0], env, kerr)
         if path == ["String", "new"] and not e.args:
             return k("([] : List Nat)", STR, env)
+        if path == ["char", "from"] and len(e.args) == 1:
+            def kcf(v, t, e2):
+                if t != U8 and not (t[0] == "int" and t[1] in ("u8", None)):
+                    self.err("`char::from` of %r" % (t,), e)
+                return k(v, ("int", "char"), e2)
+            return self.ev(e.args[0], env, kcf, U8)
+        if len(path) >= 2 and path[-2:] == ["Error", "new"] and len(e.args) == 2 and e.args[1].kind == "macro" \
+                and e.args[1].name == "format" and e.args[1].args and e.args[1].args[0].kind == "str":
+            kind, msg = e.args
+            if kind.kind != "path" or kind.path[-2:-1] != ["ErrorKind"]:
+                self.err("`io::Error::new` with a kind that is not `io::ErrorKind::<Name>`", e)
+            fargs = msg.args[1:]
+            return self.ev_list(fargs, env, lambda vs, e2: k(
+                "IoErr.mk \"%s\" (Rs.format %s [%s])" % (kind.path[-1], msg.args[0].text, ", ".join(v for v, _ in vs)),
+                ("ioerr",), e2), [None] * len(fargs))
+        if len(path) == 1 and path[0] in self.spec.get("siblings", []):
+            for f in self.unit["functions"]:
+                if f.get("free") and f["name"] == path[0]:
+                    return self.sibling_call(e, f, None, env, k)
         if len(path) == 2 and path[0] in self.enums and len(e.args) == 1:
             for vn, vargs in self.enums[path[0]]["variants"]:
                 if vn == path[1] and len(vargs) == 1:
@@ -779,6 +837,12 @@ class FxFn(IoFn):
                 x = self.tmp()
                 return ("bind", x, "Rs.chunks %s %s" % (io_paren(v), io_paren(n_)), k(x, ("list", (t[0], t[1])), e2))
             return self.ev_list([e.recv, e.args[0]], env, kch, [None, ("int", "usize")])
+        if nm == "chain" and len(e.args) == 1 and e.recv.kind == "call" and e.recv.path[-2:] == ["Cursor", "new"] \
+                and len(e.recv.args) == 1:
+            self.need_op("chain", e)
+            ret = self.parse_ty(self.ops["chain"]["ret"])
+            return self.ev_list([e.recv.args[0], e.args[0]], env,
+                                lambda vs, e2: k("chain %s %s" % (io_paren(vs[0][0]), io_paren(vs[1][0])), ret, e2), [None, None])
         if nm == "try_for_each" and len(e.args) == 1 and e.args[0].kind == "closure":
             return self.each_(e, env, k)
         if nm == "push_str" and len(e.args) == 1:
@@ -935,9 +999,15 @@ class FxFn(IoFn):
     def pat_lean(self, p, ty, env):
         if p.kind == "ptuple" and not p.items:
             return "()", env
+        if p.kind == "charlit":
+            if len(p.bytes) != 1 or p.bytes[0] >= 128:
+                self.err("non-ASCII `char` pattern", p)
+            return str(p.bytes[0]), env
+        if p.kind == "lit":
+            return str(p.v), env
         if p.kind == "pctor" and len(p.items) == 1 and p.name == "Err" and ty is not None and ty[0] == "res":
             er = err_of(ty)
-            inner_ty = ("ioerr",) if er == "IoErr" else (("strlit",) if er == "String" else ("enum", er))
+            inner_ty = ("ioerr",) if er == "IoErr" else (("strlit",) if er == "String" else (ty[3] if len(ty) == 4 else ("enum", er)))
             s, env = self.pat_lean(p.items[0], inner_ty, env)
             return ".error %s" % s, env
         return IoFn.pat_lean(self, p, ty, env)
@@ -1508,6 +1578,44 @@ unit(name="SrcFastq", props="property C11", file="src/io/fastq.rs", dialect="fx"
               outs=["self.reader.reader", "self.reader.line_buffer"],
               ops=FQ_RD, ghosts=[("fuel", "Nat")], siblings=["new", "read", "is_empty"],
               theorem="RbV.Thm.GenSrcFastq.next_eq_model"),
+     ])
+
+
+# ---- the sniffer (src/io/fastx.rs): the first byte decides, and is chained back in front of the reader
+FX_OPS = {
+    # `Read::read_exact(&mut [u8; 1])`: fills the buffer with the next byte or fails (`UnexpectedEof` at end of input)
+    "readExact": dict(method="read_exact", mut=True, args=[dict(ty="[u8; 1]", mut=True)], ret="io::Result<()>",
+                      lean_ty="σ → List Nat → Except IoErr Unit × σ × List Nat"),
+    # `Seek::seek(SeekFrom::Current(d))`
+    "seekCur": dict(method="seek", wrap=["SeekFrom", "Current"], args=["i64"], ret="io::Result<u64>", mut=True,
+                    lean_ty="σ → Int → Except IoErr Nat × σ"),
+    # `io::Cursor::new(buf).chain(reader)`: a reader that hands out the bytes of `buf`, then those of `reader`
+    "chain": dict(ret="Chain", lean_ty="List Nat → σ → χ"),
+}
+FX_CHAIN = "io::Chain<io::Cursor<[u8; 1]>, R>"
+
+unit(name="SrcFastx", props="property C11", file="src/io/fastx.rs", dialect="fx",
+     generics={"R": "σ", "Chain": "χ", "Cursor": "χ"}, io_ops=FX_OPS,
+     pinned=["pub enum Kind { FASTQ, FASTA, }"],
+     io_enums={"Kind": dict(variants=[("FASTQ", []), ("FASTA", [])])},
+     functions=[
+         dict(name="get_kind_detailed", lean="getKindDetailed", free=True,
+              header="pub fn get_kind_detailed<R: Read>( mut reader: R, ) -> std::result::Result<(" + FX_CHAIN
+                     + ", io::Result<Kind>), (R, io::Error)>",
+              self_fields=[], params=[("reader", "R")],
+              ret="Result<(" + FX_CHAIN + ", io::Result<Kind>), (R, io::Error)>", outs=[],
+              ops=["readExact", "chain"], locals={"buf": "[u8; 1]"},
+              theorem="RbV.Thm.GenSrcFastx.getKindDetailed_eq_model"),
+         dict(name="get_kind", lean="getKind", free=True,
+              header="pub fn get_kind<R: Read>(reader: R) -> io::Result<(" + FX_CHAIN + ", Kind)>",
+              self_fields=[], params=[("reader", "R")], ret="io::Result<(" + FX_CHAIN + ", Kind)>", outs=[],
+              ops=["readExact", "chain"], siblings=["get_kind_detailed"],
+              theorem="RbV.Thm.GenSrcFastx.getKind_eq_model"),
+         dict(name="get_kind_seek", lean="getKindSeek", free=True,
+              header="pub fn get_kind_seek<R: Read + io::Seek>(reader: &mut R) -> io::Result<Kind>",
+              self_fields=[], params=[("reader", "&mut R")], ret="io::Result<Kind>", outs=["reader"],
+              ops=["readExact", "seekCur"], locals={"buf": "[u8; 1]"},
+              theorem="RbV.Thm.GenSrcFastx.getKindSeek_eq_model"),
      ])
 
 
